@@ -131,10 +131,22 @@ static int xmi2mid_ParseXMI(struct xmi2mid_xmi_ctx *ctx);
 static int xmi2mid_ExtractTracks(struct xmi2mid_xmi_ctx *ctx, int32_t dstTrackNumber);
 static uint32_t xmi2mid_ExtractTracksFromXmi(struct xmi2mid_xmi_ctx *ctx);
 
+/* All source reads are bounded by [src, src_end): out-of-range reads give zeros and park the
+ * cursor at the end of the data, so every caller's "until end of data" loop terminates. */
+static int xmi2mid_avail(struct xmi2mid_xmi_ctx *ctx, uint32_t n)
+{
+    if (ctx->src_ptr >= ctx->src && ctx->src_ptr <= ctx->src_end &&
+        (size_t)(ctx->src_end - ctx->src_ptr) >= n)
+        return 1;
+    ctx->src_ptr = ctx->src_end;
+    return 0;
+}
+
 static uint32_t xmi2mid_read1(struct xmi2mid_xmi_ctx *ctx)
 {
     uint8_t b0;
-    assert(ctx->src_ptr + 1 < ctx->src_end);
+    if (!xmi2mid_avail(ctx, 1))
+        return 0;
     b0 = *ctx->src_ptr++;
     return (b0);
 }
@@ -142,7 +154,8 @@ static uint32_t xmi2mid_read1(struct xmi2mid_xmi_ctx *ctx)
 static uint32_t xmi2mid_read2(struct xmi2mid_xmi_ctx *ctx)
 {
     uint8_t b0, b1;
-    assert(ctx->src_ptr + 2 < ctx->src_end);
+    if (!xmi2mid_avail(ctx, 2))
+        return 0;
     b0 = *ctx->src_ptr++;
     b1 = *ctx->src_ptr++;
     return (b0 + ((uint32_t)b1 << 8));
@@ -151,7 +164,8 @@ static uint32_t xmi2mid_read2(struct xmi2mid_xmi_ctx *ctx)
 static uint32_t xmi2mid_read4(struct xmi2mid_xmi_ctx *ctx)
 {
     uint8_t b0, b1, b2, b3;
-    assert(ctx->src_ptr + 4 < ctx->src_end);
+    if (!xmi2mid_avail(ctx, 4))
+        return 0;
     b3 = *ctx->src_ptr++;
     b2 = *ctx->src_ptr++;
     b1 = *ctx->src_ptr++;
@@ -162,7 +176,8 @@ static uint32_t xmi2mid_read4(struct xmi2mid_xmi_ctx *ctx)
 static uint32_t xmi2mid_read4le(struct xmi2mid_xmi_ctx *ctx)
 {
     uint8_t b0, b1, b2, b3;
-    assert(ctx->src_ptr + 4 < ctx->src_end);
+    if (!xmi2mid_avail(ctx, 4))
+        return 0;
     b3 = *ctx->src_ptr++;
     b2 = *ctx->src_ptr++;
     b1 = *ctx->src_ptr++;
@@ -172,7 +187,10 @@ static uint32_t xmi2mid_read4le(struct xmi2mid_xmi_ctx *ctx)
 
 static void xmi2mid_copy(struct xmi2mid_xmi_ctx *ctx, char *b, uint32_t len)
 {
-    assert(ctx->src_ptr + len < ctx->src_end);
+    if (!xmi2mid_avail(ctx, len)) {
+        memset(b, 0, len);
+        return;
+    }
     memcpy(b, ctx->src_ptr, len);
     ctx->src_ptr += len;
 }
@@ -219,6 +237,8 @@ static void xmi2mid_write4(struct xmi2mid_xmi_ctx *ctx, uint32_t val)
 }
 
 static void xmi2mid_seeksrc(struct xmi2mid_xmi_ctx *ctx, uint32_t pos) {
+    if (pos > ctx->srcsize)
+        pos = ctx->srcsize;
     ctx->src_ptr = ctx->src + pos;
 }
 
@@ -230,7 +250,21 @@ static void xmi2mid_seekdst(struct xmi2mid_xmi_ctx *ctx, uint32_t pos) {
 }
 
 static void xmi2mid_skipsrc(struct xmi2mid_xmi_ctx *ctx, int32_t pos) {
-    ctx->src_ptr += pos;
+    int64_t newpos = (int64_t)(ctx->src_ptr - ctx->src) + pos;
+    if (newpos < 0)
+        newpos = 0;
+    if (newpos > (int64_t)ctx->srcsize)
+        newpos = (int64_t)ctx->srcsize;
+    ctx->src_ptr = ctx->src + newpos;
+}
+
+/* Go to the end of an IFF chunk of the given length which begins at 'begin' (even-padded).
+ * Never moves backwards: a length that wraps 32 bits lands on the end of the data. */
+static void xmi2mid_seekchunkend(struct xmi2mid_xmi_ctx *ctx, uint32_t begin, uint32_t len) {
+    uint64_t endpos = (uint64_t)begin + (((uint64_t)len + 1) & ~(uint64_t)1);
+    if (endpos > ctx->srcsize)
+        endpos = ctx->srcsize;
+    ctx->src_ptr = ctx->src + endpos;
 }
 
 static void xmi2mid_skipdst(struct xmi2mid_xmi_ctx *ctx, int32_t pos) {
@@ -901,6 +935,13 @@ static int32_t xmi2mid_ConvertSystemMessage(struct xmi2mid_xmi_ctx *ctx, const i
     if (!ctx->current->len)
         return (i);
 
+    if (ctx->current->len > (uint32_t)(ctx->src_end - ctx->src_ptr)) {
+        /* declared payload is longer than the rest of the data */
+        ctx->current->len = 0;
+        ctx->src_ptr = ctx->src_end;
+        return (i);
+    }
+
     ctx->current->buffer = (uint8_t *)malloc(sizeof(uint8_t)*ctx->current->len);
     xmi2mid_copy(ctx, (char *) ctx->current->buffer, ctx->current->len);
 
@@ -1151,12 +1192,12 @@ static uint32_t xmi2mid_ExtractTracksFromXmi(struct xmi2mid_xmi_ctx *ctx) {
             }
 
         rbrn_nodata:
-            xmi2mid_seeksrc(ctx, begin + ((len + 1) & ~1));
+            xmi2mid_seekchunkend(ctx, begin, len);
             continue;
         }
 
         if (memcmp(buf, "EVNT", 4)) {
-            xmi2mid_skipsrc(ctx, (len + 1) & ~1);
+            xmi2mid_seekchunkend(ctx, xmi2mid_getsrcpos(ctx), len);
             continue;
         }
 
@@ -1187,7 +1228,7 @@ static uint32_t xmi2mid_ExtractTracksFromXmi(struct xmi2mid_xmi_ctx *ctx) {
         num++;
 
         /* go to start of next track */
-        xmi2mid_seeksrc(ctx, begin + ((len + 1) & ~1));
+        xmi2mid_seekchunkend(ctx, begin, len);
 
         /* clear branch points */
         for (unsigned i = 0; i < 128; ++i)
@@ -1255,7 +1296,7 @@ badfile:    /*_WM_GLOBAL_ERROR(__FUNCTION__, __LINE__, WM_ERR_CORUPT, "(too shor
 
                 if (memcmp(buf, "INFO", 4)) {
                     /* Must align */
-                    xmi2mid_skipsrc(ctx, (chunk_len + 1) & ~1);
+                    xmi2mid_seekchunkend(ctx, xmi2mid_getsrcpos(ctx), chunk_len);
                     i += (chunk_len + 1) & ~1;
                     continue;
                 }
@@ -1275,7 +1316,7 @@ badfile:    /*_WM_GLOBAL_ERROR(__FUNCTION__, __LINE__, WM_ERR_CORUPT, "(too shor
 
             /* Ok now to start part 2
              * Goto the right place */
-            xmi2mid_seeksrc(ctx, start + ((len + 1) & ~1));
+            xmi2mid_seekchunkend(ctx, start, len);
             if (xmi2mid_getsrcpos(ctx) + 12 > file_size)
                 goto badfile;
 
